@@ -18,8 +18,10 @@ func resetPool(maxWorkers int, idle time.Duration) {
 	}
 	timeout.VerifReset(maxWorkers, idle)
 }
-func poolWorkers() int                             { return timeout.VerifWatchers() }
-func pending() int                                 { return timeout.VerifPending() }
-func heapSane() bool                               { return timeout.VerifHeapSane() }
+func poolWorkers() int { return timeout.VerifWatchers() }
+func pending() int     { return timeout.VerifPending() }
+func heapSane() bool   { return timeout.VerifHeapSane() }
 
 func withPoolLock(f func()) { timeout.VerifWithLock(f) }
+
+func fireTime(f timeout.Future) (time.Time, bool) { return timeout.VerifFireTime(f) }
